@@ -485,6 +485,7 @@ int dns_decode(char *buf, size_t buflen, struct query *q, qr_t qr, char *packet,
 			readshort(packet, &data, &class);
 			readlong(packet, &data, &ttl);
 			readshort(packet, &data, &rlen);
+			CHECKLEN(rlen);
 
 			rv = MIN(rlen, sizeof(rdata));
 			rv = readdata(packet, &data, rdata, rv);
@@ -516,6 +517,7 @@ int dns_decode(char *buf, size_t buflen, struct query *q, qr_t qr, char *packet,
 			if (type == T_A) {
 				/* Answer type A includes only 4 bytes.
 				   Not used for tunneling. */
+				CHECKLEN(rlen);
 				rv = MIN(rlen, sizeof(rdata));
 				rv = readdata(packet, &data, rdata, rv);
 				if (rv >= 2 && buf) {
@@ -594,6 +596,7 @@ int dns_decode(char *buf, size_t buflen, struct query *q, qr_t qr, char *packet,
 			readshort(packet, &data, &class);
 			readlong(packet, &data, &ttl);
 			readshort(packet, &data, &rlen);
+			CHECKLEN(rlen);
 
 			rv = readtxtbin(packet, &data, rlen, rdata,
 				        sizeof(rdata));
